@@ -88,6 +88,10 @@ class Lib:
         self.mod.open = self.fs.open
 
     def __enter__(self):
+        # a history starts in a fresh process: no module state may leak in from the previous run or case
+        if "open" in vars(self.mod):
+            del self.mod.open
+        self.mod = _reload(self.mod)
         self.saved = (self.mod.MAX_BLOCKFILE_SIZE, self.mod.MAGIC_START_BYTES)
         self._patch()
         return self
